@@ -43,15 +43,15 @@ def analyse_disconnect_impls(f, rep):
     for ty, b in sorted(impls.items()):
         removes_table = False
         removes_stream = False
-        has_queue = any(a for p_, a in f.adts.items() if p_.endswith("::" + ty.split("::")[-1]) and any("QueueInner" in x["ty"] for x in a["variants"][0]["fields"]))
+        has_queue = any(a for p_, a in f.adts.items() if p_.endswith("::" + ty.split("::")[-1]) and any(fq.inner_name(f) in x["ty"] for x in a["variants"][0]["fields"]))
         for p in pathq.paths(f, b):
             if p.end != "return":
                 continue
             t = [ev for i, ev in pathq.calls(p, "remove_sync", "remove_async", "remove", "remove_entry", "remove_if_sync") if "scc::" in ev.name and len(ev.args) > 1 and ev.args[1] == ("arg", 2)]
-            s = [ev for i, ev in pathq.calls(p, "remove") if "QueueInner" in ev.name and len(ev.args) > 1 and ev.args[1] == ("arg", 2)]
+            s = [ev for i, ev in pathq.calls(p, "remove") if fq.inner_name(f) in ev.name and len(ev.args) > 1 and ev.args[1] == ("arg", 2)]
             removes_table = bool(t)
             # the stream removal may be guarded by `if let Some(inner)`: it must happen on the Some path
-            q_none = any(e[0] == "discr" and c == ("eq", 0) and any(isinstance(x, tuple) and x and x[0] == "field" and "QueueInner" in str(x[3]) for x in walk_expr(e[1])) for (e, c, _, _) in p.conds)
+            q_none = any(e[0] == "discr" and c == ("eq", 0) and any(isinstance(x, tuple) and x and x[0] == "field" and fq.inner_name(f) in str(x[3]) for x in walk_expr(e[1])) for (e, c, _, _) in p.conds)
             if has_queue and not q_none:
                 removes_stream = bool(s)
                 rep.check(bool(s), "R16.1", "R16.1|%s|removes-queued-stream" % ty,
@@ -66,7 +66,7 @@ def analyse_disconnect_impls(f, rep):
         rep.check(not bulk, "R16.4", "R16.4|%s|forgets-only-that-peer" % ty,
                   "%s::peer_disconnected changes the shared containers only by keyed removal of its argument (bulk operations: %s)" % (ty, bulk), b.loc())
     # the same for the receive queue's own remove(key)
-    for qb in [b2 for b2 in f.bodies if b2.j.get("name") == "remove" and "QueueInner" in b2.path and b2.kind == "AssocFn"]:
+    for qb in [b2 for b2 in f.bodies if b2.j.get("name") == "remove" and fq.inner_name(f) in b2.path and b2.kind == "AssocFn"]:
         ops = sorted({fn["name"] for k in pathq.scope(f, qb) for bb, t2, fn in k.calls() if fn and any(c_ in fn["path"] for c_ in ("HashMap", "BinaryHeap", "Vec"))})
         rep.check(ops == ["remove"], "R16.4", "R16.4|queue-remove|forgets-only-that-peer",
                   "QueueInner::remove(key) only removes that key's stream (container operations: %s): the other peers' streams and queued wake-ups stay" % ops, qb.loc())
